@@ -49,6 +49,19 @@ def config(quick):
     return c
 
 
+def config_uncmp(quick):
+    """Destinations whose Go type cannot be compared with == (a struct value holding a slice; writer ids 37, 38):
+    set and add work as for any writer, a remove call that names one changes nothing and must not panic."""
+    sa = {
+        "Writer": [(1, 0), (37, 0)], "AddWriter": [(37, 0), (38, 0)], "RemoveWriter": [(1, 0), (37, 0), (38, 0)],
+        "ErrorWriter": [(37, 0)], "AddErrorWriter": [(4, 0)], "RemoveErrorWriter": [(37, 0), (4, 0)],
+        "AddLevelWriter": [(37, 4)], "RemoveLevelWriter": [(37, 4)], "ResetWriters": [(0, 0)],
+    }
+    c = base(quick)
+    c.update(max_loggers=1, setter_args=sa, acts=["Set"], wlevels=[4], opt_lists=[[]])
+    return c
+
+
 def config_new(quick):
     """The same operations as New(...) options (and With*) creating children of a configured parent."""
     c = base(quick)
@@ -69,7 +82,7 @@ def config_reg(quick):
 
 def rand_config(c):
     r = dict(c)
-    ws = [1, 2, 3, 4, 5, 8, 0, 41, 42, 49, 50]
+    ws = [1, 2, 3, 4, 5, 8, 0, 41, 42, 49, 50, 37, 38]
     wl = [4, 14, 2, 8]
     r["wlevels"] = wl
     r["setter_args"] = {
@@ -88,7 +101,7 @@ def explain(ev, b):
     """Signature: which writer operation was the last call, on which kind of writer."""
     kinds = {0: "plain", 1: "lw", 2: "ls", 3: "pls"}
     k = ev["k"] if ev["op"] in ("Set", "With") else ev["op"]
-    wk = "nlw" if ev["a"] >= 49 and "Writer" in k else "file" if ev["a"] >= 41 and "Writer" in k else kinds[(ev["a"] - 1) % 4] if ev["a"] > 0 and ("Writer" in k) and not k.startswith("Reset") else "-"
+    wk = "uncomparable" if 37 <= ev["a"] <= 40 and "Writer" in k else "nlw" if ev["a"] >= 49 and "Writer" in k else "file" if ev["a"] >= 41 and "Writer" in k else kinds[(ev["a"] - 1) % 4] if ev["a"] > 0 and ("Writer" in k) and not k.startswith("Reset") else "-"
     notes = []
     for li, o in enumerate(ev.get("obs", []), 1):
         for d in o.get("dest", []):
@@ -111,6 +124,8 @@ def run(ctx, replay):
                      rand_count=0, rand_depth=0, rand_loggers=3, key_fn=explain, tag="new"))
     jobs.append(lambda: corelib.run_core(ctx, config_reg(ctx.quick()), invariants=["RouteOK", "TreeOK"], properties=["Isolation", "RegistryLocal"], obs=OBS,
                      rand_count=10 if ctx.quick() else 200, rand_depth=8 if ctx.quick() else 14, rand_loggers=1, key_fn=explain, tag="reg"))
+    jobs.append(lambda: corelib.run_core(ctx, config_uncmp(ctx.quick()), invariants=["RouteOK", "TreeOK"], properties=["Isolation"], obs=OBS,
+                     rand_count=0, rand_depth=0, rand_loggers=1, key_fn=explain, tag="uncmp", alt_env=False))
     corelib.run_jobs(jobs)
     ctx.assumptions += ["destinations are compared as bags: the order of Write calls across destinations is not part of the property",
                         "removal of a writer that is in the list twice may remove one or all occurrences (statement silent)",
